@@ -135,7 +135,9 @@ class FixedSizeSample(base.MergeableMetric, base.HasAsAggFn):
     # in one-shot.
     result = []
     num_samples_orig = self._num_samples_reviewed
-    reservoir_new, num_samples_new = other.reservoir, other.num_samples_reviewed
+    # Sample from a copy: merging must not consume the other sampler.
+    reservoir_new = list(other.reservoir)
+    num_samples_new = other.num_samples_reviewed
     while len(result) < self.max_size and num_samples_orig + num_samples_new:
       thr_from_orig = num_samples_orig / (num_samples_orig + num_samples_new)
       if self._rng.uniform() < thr_from_orig:
